@@ -5,6 +5,8 @@
 static ALLOC: simcore::alloc::SimAlloc = simcore::alloc::SimAlloc;
 
 mod c01;
+mod c03;
+mod c08;
 mod c12;
 mod c14;
 mod c20;
@@ -36,7 +38,9 @@ pub fn exh_index(total: u64) -> u64 {
 fn main() {
     let mut scs = Vec::new();
     scs.extend(c01::scenarios());
+    scs.extend(c03::scenarios());
     scs.extend(transport::scenarios());
+    scs.extend(c08::scenarios());
     scs.extend(c12::scenarios());
     scs.extend(c14::scenarios());
     scs.extend(merkle::scenarios());
